@@ -623,6 +623,7 @@ func runR_C05(c *Ctx) {
 		ok = reportIssues(c, rs, "R11", "", copyTaintIssues(s)) && ok
 		ok = reportIssues(c, rs, "R11", "", freshIssues(s)) && ok
 		ok = reportIssues(c, rs, "R11", "", resizeIssues(s)) && ok
+		ok = reportIssues(c, rs, "R11", "", loopExitIssues(rs.Funcs[0])) && ok
 		if !rs.Run.RecCut {
 			ok = reportIssues(c, rs, "R19", "", s.fieldCoverage("AB")) && ok
 		}
@@ -791,4 +792,55 @@ func (s *sided) flowSide(e ast.Expr) string {
 		return "B"
 	}
 	return ""
+}
+
+
+// loopExitIssues — a deep copy visits every element of an array, slice or map: a `return`, `break` or `goto` inside an element loop
+// (not inside a function literal, and a break not belonging to an inner switch/select) leaves the elements after it uncopied — the
+// destination keeps whatever it held there, or the zero value. A `continue` skips only the rest of one element's copy and is judged
+// by the other rules.
+func loopExitIssues(fn *ast.FuncDecl) []sideIssue {
+	var out []sideIssue
+	var walk func(n ast.Node, inLoop bool, breakable bool)
+	walk = func(n ast.Node, inLoop, breakable bool) {
+		ast.Inspect(n, func(m ast.Node) bool {
+			if m == nil || m == n {
+				return true
+			}
+			switch x := m.(type) {
+			case *ast.FuncLit:
+				return false
+			case *ast.ForStmt:
+				walk(x.Body, true, true)
+				return false
+			case *ast.RangeStmt:
+				walk(x.Body, true, true)
+				return false
+			case *ast.SwitchStmt, *ast.TypeSwitchStmt, *ast.SelectStmt:
+				// an unlabelled break inside belongs to the switch
+				var body *ast.BlockStmt
+				switch y := x.(type) {
+				case *ast.SwitchStmt:
+					body = y.Body
+				case *ast.TypeSwitchStmt:
+					body = y.Body
+				case *ast.SelectStmt:
+					body = y.Body
+				}
+				walk(body, inLoop, false)
+				return false
+			case *ast.ReturnStmt:
+				if inLoop {
+					out = append(out, sideIssue{x, "returns from inside the loop over the elements: the elements after the one that took this path are never copied", "exit-inside-element-loop", ""})
+				}
+			case *ast.BranchStmt:
+				if inLoop && (x.Tok == token.GOTO || (x.Tok == token.BREAK && (breakable || x.Label != nil))) {
+					out = append(out, sideIssue{x, "leaves the loop over the elements early (" + x.Tok.String() + "): the elements after the one that took this path are never copied", "exit-inside-element-loop", ""})
+				}
+			}
+			return true
+		})
+	}
+	walk(fn.Body, false, false)
+	return out
 }
